@@ -16,6 +16,11 @@ add("C17",
     "Coq theorems (all inputs) over arn.py, valid_name and the ten ARN derivation sites as regenerated from the source on every run: parse/create round trips, valid_name = documented rule, every mint site followed by every derive site returns the same state machine ARN and name. Differential runs tie the Python-string library and the API glue to the model.",
     "Trusted: Coq kernel + vm_compute; harness/translate.py; PyStr definitions of split/rpartition (tied by differential runs); code points <= 255; region/account free of ':' (configuration).",
     "Coq proof over source-regenerated model + differential correspondence", "DESIGN.md section 6 (C17)")
+add("C12",
+    "Coq theorems for all documents, results and definite reference paths of any depth: put-get, frame (every incomparable member unchanged, nothing else appears), '$'/null, well-formedness, error typing, dot/bracket/index notations tokenised alike by reader and writer; F30 (null document read as {}) is a refuted theorem and a known finding. ~20k differential cases per run tie the model (definite fragment of jsonpath 0.82, Python int()) to the code, with oracles evaluated in Coq on observed outputs (incl. aliasing: result = input itself / sub-object).",
+    "Trusted: Coq kernel + vm_compute; translator (reads the writer's delimiter class); hand-written Model/Paths.v tied only by differential runs; jsonpath beyond definite paths not modelled; code points <= 255.",
+    "Coq proof (induction on paths/JSON) + differential correspondence with Coq-evaluated oracles", "DESIGN.md section 6 (C12)")
+DONE = [c["property_id"] for c in checks]
 m = {
  "version": 1,
  "setup_cmd": "bin/setup",
@@ -27,6 +32,6 @@ m = {
  "checks": checks,
  "notes": "fix: commits in /repo: 1fcffe5, 07ed753 (valid_name). See KNOWN_FINDINGS.json and DESIGN.md.",
  "not_applicable": [{"property_id": p, "reason": "not built yet in this round (planned, see DESIGN.md section 12)"} for p in
-                    ["C01","C02","C03","C04","C05","C06","C07","C08","C09","C10","C11","C12","C13","C14","C15","C16","C18","C19","C20"]],
+                    ["C%02d" % i for i in range(1, 21)] if p not in DONE],
 }
 json.dump(m, open("/verif/MANIFEST.json","w"), indent=1)
